@@ -45,14 +45,14 @@ def register(reg):
                                               "len(old(fs_content(%s))) != 32)" % (P, P),
             "C07.oserror-only-when-creating": "implies(exc_is(OSError), not old(fs_readable(%s)))" % P,
             "C07.failed-load-leaves-fs": "fs_same()",
-            "C07.no-key-retained": "not truthy(self.__key)",
+            "C07+C19+C03.no-key-retained": "not truthy(self.__key)",
             "C07.refcount-kept": "self.__refcount == old(self.__refcount)",
         })
     reg.contract(
         "encryption:KeyFile.__enter__", returns="ref:KeyFile",
         modifies=["self.__key", "self.__refcount", "fs", "rand_ctr", "fresh"],
         ensures={
-            "C07.refcount-up": "self.__refcount == old(self.__refcount) + 1 and result is self",
+            "C07+C19+C03.refcount-up": "self.__refcount == old(self.__refcount) + 1 and result is self",
             "C07.key-valid": "truthy(self.__key) and len(self.__key) == 32",
             "C07.nested-share-key": "implies(old(truthy(self.__key)), self.__key == old(self.__key) and fs_same())",
             "C07.verbatim": "implies(old(not truthy(self.__key) and fs_readable(%s)), self.__key == old(fs_content(%s)) and fs_same())" % (P, P),
@@ -64,16 +64,16 @@ def register(reg):
             "C07.only-opening-raises": "not old(truthy(self.__key))",
             "C07.rejected-only-if-malformed": "implies(exc_is(EncryptionError), old(fs_readable(%s)) and "
                                               "len(old(fs_content(%s))) != 32)" % (P, P),
-            "C07.failed-open-state": "self.__refcount == old(self.__refcount) and fs_same()",
-            "C07.no-key-retained": "not truthy(self.__key)",
+            "C07+C19+C03.failed-open-state": "self.__refcount == old(self.__refcount) and fs_same()",
+            "C07+C19+C03.no-key-retained": "not truthy(self.__key)",
         })
     reg.contract(
         "encryption:KeyFile.__exit__", params={"exc_type": "any", "exc_value": "any", "traceback": "any"},
         requires={"open": "self.__refcount >= 1"}, noraise=True, returns="bool",
         modifies=["self.__key", "self.__refcount"],
         ensures={
-            "C07.refcount-down": "self.__refcount == old(self.__refcount) - 1 and result is False",
-            "C07.key-cleared-at-zero": "implies(self.__refcount == 0, self.__key is None)",
+            "C07+C19+C03.refcount-down": "self.__refcount == old(self.__refcount) - 1 and result is False",
+            "C07+C19+C03.key-cleared-at-zero": "implies(self.__refcount == 0, self.__key is None)",
             "C07.key-kept-while-open": "implies(self.__refcount > 0, self.__key == old(self.__key))",
             "C07.exit-fs": "fs_same()",
         })
